@@ -198,4 +198,4 @@ mod tests {
 
 #[cfg(kani)]
 #[path = "/verif/units/kani/store_meta.rs"]
-mod verif_kani;
+pub(crate) mod verif_kani;
